@@ -24,21 +24,124 @@ def touch_sources(dst):
                     pass
 
 
-def run_native(mods, flt, repo="/repo", timeout=3600, extra_args=None):
-    """mods: list of (module file rel path, abs test file).  returns (rc, output)"""
+def all_standins():
+    """(module file, test file) of every [[bounded]] / [fallback] stand-in of every unit"""
+    import glob, tomllib
+    out = []
+    for p in sorted(glob.glob(os.path.join(VERIF, "units", "*", "unit.toml"))):
+        u = tomllib.load(open(p, "rb"))
+        d = os.path.dirname(p)
+        for bd in u.get("bounded", []) + ([u["fallback"]] if u.get("fallback") else []):
+            out.append((bd["module_file"], os.path.join(d, bd["test"])))
+    return out
+
+
+def _prepare(repo, mods):
     scratch = tempfile.mkdtemp(prefix="vx_native_")
+    dst = os.path.join(scratch, "repo")
+    if os.path.exists(os.path.join(repo, "Cargo.toml")):
+        subprocess.run(["rsync", "-a", "--exclude", "target", "--exclude", ".git", repo + "/", dst + "/"], check=True)
+    else:
+        # `repo` is a scratch dir holding only src/ (mutation self-test): overlay it on the real tree
+        subprocess.run(["rsync", "-a", "--exclude", "target", "--exclude", ".git", "/repo/", dst + "/"], check=True)
+        subprocess.run(["rsync", "-a", repo + "/src/", dst + "/src/"], check=True)
+    seen = set()
+    for (modfile, testfile) in mods:
+        if (modfile, testfile) in seen:
+            continue
+        seen.add((modfile, testfile))
+        name = "vx_native_" + re.sub(r"\W+", "_", os.path.basename(os.path.dirname(testfile)) + "_" + os.path.splitext(os.path.basename(testfile))[0]).lower()
+        with open(os.path.join(dst, modfile), "a") as f:
+            f.write('\n#[cfg(test)]\n#[path = "%s"]\nmod %s;\n' % (testfile, name))
+    return scratch, dst
+
+
+def _content_key(dst, mods):
+    """everything the test binary is built from: the crate sources with the appended module lines, the manifests, the stand-in files"""
+    import hashlib
+    h = hashlib.sha256()
+    files = []
+    for root, _dirs, fs in os.walk(os.path.join(dst, "src")):
+        files += [os.path.join(root, f) for f in fs]
+    for f in ("Cargo.toml", "Cargo.lock", "build.rs"):
+        if os.path.exists(os.path.join(dst, f)):
+            files.append(os.path.join(dst, f))
+    for root, _dirs, fs in os.walk(dst):
+        if root == dst or "/src" in root[len(dst):] or "/target" in root[len(dst):] or "/.git" in root[len(dst):]:
+            continue
+        files += [os.path.join(root, f) for f in fs if f in ("Cargo.toml", "build.rs") or f.endswith(".proto")]
+    for f in sorted(set(files)):
+        h.update(os.path.relpath(f, dst).encode() + b"\0")
+        h.update(open(f, "rb").read())
+    for (_m, t) in sorted(set(mods)):
+        h.update(t.encode() + b"\0")
+        h.update(open(t, "rb").read())
+    return h.hexdigest()[:24]
+
+
+BINCACHE = os.path.join(VERIF, ".cache", "native-bin")
+
+
+def _run_shared(mods, filters, repo, timeout):
+    """one test binary holding EVERY stand-in, cached by the content it was built from (sources + stand-ins): the 16 checks of one
+    run then build it once.  Returns None when the shared binary cannot be built (e.g. a stand-in of another unit does not compile
+    against the current source) — the caller then builds just its own modules."""
+    import fcntl, json as _json
+    allm = []
+    for m in list(mods) + all_standins():
+        if m not in allm:
+            allm.append(m)
+    scratch, dst = _prepare(repo, allm)
     try:
-        dst = os.path.join(scratch, "repo")
-        if os.path.exists(os.path.join(repo, "Cargo.toml")):
-            subprocess.run(["rsync", "-a", "--exclude", "target", "--exclude", ".git", repo + "/", dst + "/"], check=True)
-        else:
-            # `repo` is a scratch dir holding only src/ (mutation self-test): overlay it on the real tree
-            subprocess.run(["rsync", "-a", "--exclude", "target", "--exclude", ".git", "/repo/", dst + "/"], check=True)
-            subprocess.run(["rsync", "-a", repo + "/src/", dst + "/src/"], check=True)
-        for i, (modfile, testfile) in enumerate(mods):
-            name = "vx_native_" + re.sub(r"\W+", "_", os.path.basename(os.path.dirname(testfile)) + "_" + os.path.splitext(os.path.basename(testfile))[0]).lower()
-            with open(os.path.join(dst, modfile), "a") as f:
-                f.write('\n#[cfg(test)]\n#[path = "%s"]\nmod %s;\n' % (testfile, name))
+        key = _content_key(dst, allm)
+        os.makedirs(BINCACHE, exist_ok=True)
+        os.makedirs(TARGET, exist_ok=True)
+        binp = os.path.join(BINCACHE, key, "rnacos-tests")
+        env = dict(os.environ, CARGO_NET_OFFLINE="true", CARGO_TARGET_DIR=TARGET, RUST_BACKTRACE="0")
+        with open(os.path.join(TARGET, ".vx_native_lock"), "w") as lk:
+            fcntl.flock(lk, fcntl.LOCK_EX)
+            if not os.path.exists(binp):
+                touch_sources(dst)
+                p = subprocess.run(["cargo", "test", "--lib", "--offline", "-p", "rnacos", "--no-run", "--message-format=json"],
+                                   cwd=dst, env=env, capture_output=True, text=True, timeout=timeout)
+                exe = None
+                for line in p.stdout.split("\n"):
+                    if '"executable"' in line:
+                        try:
+                            j = _json.loads(line)
+                            if j.get("executable") and j.get("profile", {}).get("test") and j.get("target", {}).get("name") == "rnacos":
+                                exe = j["executable"]
+                        except ValueError:
+                            pass
+                if p.returncode != 0 or not exe or not os.path.exists(exe):
+                    return None
+                # keep at most two binaries
+                old = sorted((os.path.getmtime(os.path.join(BINCACHE, d)), d) for d in os.listdir(BINCACHE))
+                for _t, d in old[:-1]:
+                    shutil.rmtree(os.path.join(BINCACHE, d), ignore_errors=True)
+                os.makedirs(os.path.dirname(binp), exist_ok=True)
+                shutil.copy2(exe, binp + ".tmp")
+                os.replace(binp + ".tmp", binp)
+            else:
+                os.utime(os.path.dirname(binp), None)
+            env2 = dict(env, CARGO_MANIFEST_DIR=dst)
+            p = subprocess.run([binp] + list(filters) + ["--nocapture", "--test-threads", "1"], cwd=dst, env=env2, capture_output=True, text=True, timeout=timeout)
+        return p.returncode, p.stdout[-40000:] + "\n" + p.stderr[-40000:] + "\n[shared stand-in binary %s]\n" % key
+    finally:
+        shutil.rmtree(scratch, ignore_errors=True)
+
+
+def run_native(mods, flt, repo="/repo", timeout=3600, extra_args=None, shared=False):
+    """mods: list of (module file rel path, abs test file).  returns (rc, output)"""
+    if shared and not os.environ.get("VERIF_NO_SHARED_BIN"):
+        try:
+            r = _run_shared(mods, [flt] + list(extra_args or []), repo, timeout)
+        except Exception:
+            r = None
+        if r is not None:
+            return r
+    scratch, dst = _prepare(repo, mods)
+    try:
         env = dict(os.environ, CARGO_NET_OFFLINE="true", CARGO_TARGET_DIR=TARGET, RUST_BACKTRACE="0")
         cmd = ["cargo", "test", "--lib", "--offline", "-p", "rnacos", flt, "--", "--nocapture", "--test-threads", "1"] + (extra_args or [])
         # one native build + run at a time: the test binary has the same file name for every scratch copy of the crate, so two
